@@ -175,7 +175,7 @@ func rrGen(r *hx.Rand, i int) interface{} {
 		in.Picks = 100 + r.Intn(400)
 	}
 	if weighted && r.Chance(1, 100) { // weighted rings have about 10⁴ slots: go around at least once sometimes
-		in.Picks = 10000 + r.Intn(12000)
+		in.Picks = 10000 + r.Intn(2500)
 	}
 	return in
 }
